@@ -1,9 +1,12 @@
-"""C10 (other problem classes): reproduction of the three findings of Props/C10_classes.v on the REAL code.
+"""C10 (other problem classes): the three kind omissions found with Model/KindOfClasses.v, on the REAL code.
 
-Run:  PYTHONPATH=/repo PYTHONHASHSEED=0 /venv/bin/python -W ignore /verif/notes/C10_classes_repro.py
+Run:  PYTHONPATH=/repo PYTHONHASHSEED=0 /venv/bin/python -W ignore /verif/corpus/c10_classes_repro.py
 Each block builds a small problem through the public API, prints `problem.kind.features` and the features the problem
-syntactically uses that the kind does not report.  Exit status 0 = all three defects reproduced, 1 = at least one is
-gone (the code changed: update Model/KindOfClasses.v and Props/C10_classes.v).
+syntactically uses that the kind does not report.
+  F1 (MultiAgentProblem.kind) is OPEN: finding C10-ma-kind-misses-common-features; it must print the missed features.
+  F2 (HierarchicalProblem.kind) and F3 (SchedulingProblem.kind) were repaired in /repo (fix c453608, fix c7cadef): on the
+  repaired code they print "NOT reproduced"; on `git revert` of those commits they print the missed features.
+Exit status 0 = F1 reproduced and F2, F3 gone (the expected state today), 1 otherwise.
 """
 import sys
 
@@ -26,7 +29,6 @@ def report(title, problem, used):
     print("   used but not reported:", missing)
     if not missing:
         print("   NOT reproduced")
-        status = 1
     return missing
 
 
@@ -67,7 +69,7 @@ def ma():
     return p
 
 
-report("F1 MultiAgentProblem.kind", ma(), [
+f1 = report("F1 MultiAgentProblem.kind", ma(), [
     "BOOL_FLUENT_PARAMETERS", "BOUNDED_INT_FLUENT_PARAMETERS", "BOOL_ACTION_PARAMETERS", "BOUNDED_INT_ACTION_PARAMETERS",
     "UNBOUNDED_INT_ACTION_PARAMETERS", "REAL_ACTION_PARAMETERS", "STATIC_FLUENTS_IN_BOOLEAN_ASSIGNMENTS",
     "STATIC_FLUENTS_IN_NUMERIC_ASSIGNMENTS", "STATIC_FLUENTS_IN_OBJECT_ASSIGNMENTS", "FLUENTS_IN_BOOLEAN_ASSIGNMENTS",
@@ -100,7 +102,7 @@ def hier():
 
 hp = hier()
 print("   user_types:", [str(t) for t in hp.user_types])
-report("F2 HierarchicalProblem.kind", hp, ["HIERARCHICAL_TYPING"])
+f2 = report("F2 HierarchicalProblem.kind (repaired by c453608)", hp, ["HIERARCHICAL_TYPING"])
 
 
 # -------------------------------------------------------------------------------------------------- F3: scheduling
@@ -118,10 +120,10 @@ def sched():
     return p
 
 
-report("F3 SchedulingProblem.kind", sched(), ["BOUNDED_INT_ACTION_PARAMETERS", "BOOL_ACTION_PARAMETERS", "HIERARCHICAL_TYPING"])
+f3 = report("F3 SchedulingProblem.kind (repaired by c7cadef)", sched(), ["BOUNDED_INT_ACTION_PARAMETERS", "BOOL_ACTION_PARAMETERS", "HIERARCHICAL_TYPING"])
 p2 = SchedulingProblem("s2")
 a = p2.add_activity("a", duration=2)
 a.add_parameter("w", IntType(0, 3))
 print("   (same variable as an ACTIVITY parameter:", sorted(p2.kind.features), ")")
 
-sys.exit(status)
+sys.exit(0 if (f1 and not f2 and not f3) else 1)
